@@ -216,17 +216,31 @@ pub fn c12_history(cfg: &CardCfg, nops: usize, seed: u64, prop: &str, rep: &mut 
     }
     // ---- reads and writes ----------------------------------------------------------------------
     let mut tag = 1u32;
+    let mut last_write: Option<(u32, usize)> = None;
     for opi in 0..nops {
-        let n = match rng.below(8) {
+        let n = match rng.below(10) {
             0 => 2,
             1 => 3 + rng.usize_below(6),
+            // occasionally long transfers
+            2 => 9 + rng.usize_below(40),
             _ => 1,
         };
         if (n as u64) > rig.nblocks {
             continue;
         }
-        let idx = pick_block(&mut rng, rig.nblocks, n as u64);
-        let is_write = rng.chance(1, 2);
+        let mut idx = pick_block(&mut rng, rig.nblocks, n as u64);
+        let mut is_write = rng.chance(1, 2);
+        // read straight back what the previous call wrote (same range or overlapping it)
+        if let Some((pi, pn)) = last_write {
+            if rng.chance(1, 3) && (pi as u64 + n as u64) <= rig.nblocks {
+                is_write = false;
+                idx = pi + if pn > 1 && n == 1 { rng.below(pn as u64) as u32 } else { 0 };
+                if (idx as u64 + n as u64) > rig.nblocks {
+                    idx = pi;
+                }
+            }
+        }
+        last_write = None;
         rep.evaluations += 1;
         if is_write {
             let mut blocks = vec![Block::new(); n];
@@ -234,6 +248,14 @@ pub fn c12_history(cfg: &CardCfg, nops: usize, seed: u64, prop: &str, rep: &mut 
                 tag += 1;
                 for (i, x) in b.contents.iter_mut().enumerate() {
                     *x = crate::fsx::payload_byte(tag ^ seed as u32, (k * 512 + i) as u32);
+                }
+                // payloads that look like protocol bytes: tokens, idle and busy patterns
+                match tag % 9 {
+                    0 => b.contents[..4].copy_from_slice(&[0xFE, 0xFF, 0xFC, 0xFD]),
+                    1 => b.contents = [0xFF; 512],
+                    2 => b.contents = [0x00; 512],
+                    3 => b.contents[508..].copy_from_slice(&[0xFF, 0xFF, 0xFE, 0x05]),
+                    _ => {}
                 }
             }
             let before_committed = rig.bus.borrow().card.writes_committed.len();
@@ -288,6 +310,7 @@ pub fn c12_history(cfg: &CardCfg, nops: usize, seed: u64, prop: &str, rep: &mut 
                     for (k, b) in blocks.iter().enumerate() {
                         rig.shadow.insert(idx + k as u32, b.contents);
                     }
+                    last_write = Some((idx, n));
                     rep.count(if n == 1 { "single_block_writes" } else { "multi_block_writes" }, 1);
                 }
             }
